@@ -262,6 +262,12 @@ def loop_progress_parse_qsl(P, R):
     f = P.func('ombott.request_pkg.helpers:parse_qsl')
     g, rd = f.cfg, f.rd
     whiles = [n for n in walk_shallow(f.node) if isinstance(n, ast.While) and enclosing(n, ast.While) is None]
+    pieces = m.split_scanner(f)
+    if not whiles and pieces is not None:
+        inner = [n for st in pieces[0].body for n in walk_shallow(st) if isinstance(n, ast.While)]
+        R.ob('C18.a', f, inner[0] if inner else pieces[0], not inner, text=f'urlencoded scanner: one pass over {short(pieces[1])} - finitely many pieces',
+             detail='' if not inner else 'a while loop inside the per-pair pass: its termination has no recogniser here', why='reading the form never hangs')
+        return
     R.require(len(whiles) == 1, 'parse_qsl: scan loop not found')
     loop = whiles[0]
     cp = compare_parts(loop.test)
